@@ -1,9 +1,9 @@
 """C14 -- dynamical susceptibility equals its definition incl. the static limit."""
 import pipeline
 
-LEAN_MODULES = ['PomerolModel.Properties.C14']
+LEAN_MODULES = ['PomerolModel.Properties.C14', 'PomerolModel.Properties.C14Merge']
 GENERATED = ['susc']
-THEOREMS = ["Pomerol.Properties.C14." + t for t in ['susceptibility_equals_definition', 'static_limit', 'tau_is_correlator', 'tau_frequency_consistent', 'disconnected_part', 'library_tolerances', 'value_with_library_tolerances', 'exact_when_no_near_degeneracy', 'known_finding_F14_residue_filter', 'F14_parametric', 'loops_compute_susceptibility', 'loops_compute_value_with_tolerances', 'loops_and_evaluation_compute_susceptibility']]
+THEOREMS = ["Pomerol.Properties.C14." + t for t in ['susceptibility_equals_definition', 'static_limit', 'tau_is_correlator', 'tau_frequency_consistent', 'disconnected_part', 'library_tolerances', 'value_with_library_tolerances', 'exact_when_no_near_degeneracy', 'known_finding_F14_residue_filter', 'F14_parametric', 'loops_compute_susceptibility', 'loops_compute_value_with_tolerances', 'loops_and_evaluation_compute_susceptibility']] + ["Pomerol.Properties.C14Merge." + t for t in ['susc_compare_is_gf_compare', 'susc_negligible_is_gf_negligible', 'susc_term_value', 'susc_dropped_terms_budget', 'susc_merged_value_error', 'susc_merged_value_error_matsubara']]
 RULE = 'a case = random model (many with exact degeneracies), all (a,b,c,d) sampled incl. S_z-changing ones, bosonic n in {0,+-1,..}, three ways of supplying the averages, tau grid; compared with the full-space bosonic Lehmann sum; every fourth case has an exact degeneracy lifted by a tiny level shift (1e-10 .. 1e-4); a tolerance decision of the library that is numerically undecidable (within 1e-4 relative of 1e-8) widens the comparison budget by the term concerned and is counted as ambiguous; the minimised near-degenerate case of finding F14 (corpus/C14) runs first; non-trivial = distinct case with a degenerate pair of levels contributing at n=0 or at least two modes'
 TRUSTED = ["harness/pipe.cpp drives the real classes along the documented workflow; case-file protocol with hex doubles",
            "numeric oracle (lean/Driver/Numeric*.lean): IEEE double arithmetic of compiled Lean, full-Fock-space sums",
